@@ -42,6 +42,9 @@ type Step struct {
 	Val     string `json:"val,omitempty"` // hex
 	Version int64  `json:"version,omitempty"`
 	Prove   bool   `json:"prove,omitempty"`
+	// Cached: the write goes through a cache-wrapped multistore that is written back at once (the way a block's
+	// state reaches the root store in an application)
+	Cached bool `json:"cached,omitempty"`
 	// Crash: crash before DB write event #Crash of this commit (-1 / absent = none); set by crash enumeration
 	Crash *int `json:"crash,omitempty"`
 }
@@ -358,6 +361,12 @@ func (e *exec) do(s *Step) {
 			return
 		}
 		kv := e.rs.GetKVStore(e.keys[s.Store])
+		var cms stypes.CacheMultiStore
+		if s.Cached {
+			cms = e.rs.CacheMultiStore()
+			kv = cms.GetKVStore(e.keys[s.Store])
+			st.C("writes_through_cache_multistore", 1)
+		}
 		k := unhex(s.Key)
 		if len(k) == 0 {
 			return
@@ -369,6 +378,9 @@ func (e *exec) do(s *Step) {
 		} else {
 			kv.Delete(k)
 			delete(e.m.work[s.Store], string(k))
+		}
+		if cms != nil {
+			cms.Write()
 		}
 		e.pendingOps = append(e.pendingOps, *s)
 		st.C("writes", 1)
@@ -561,10 +573,18 @@ func (e *exec) afterCrash(newV int64, snap []content, c simdb.Crash, prevLabel s
 				continue
 			}
 			kv := rs.GetKVStore(e.keys[op.Store])
+			var cms stypes.CacheMultiStore
+			if op.Cached {
+				cms = rs.CacheMultiStore()
+				kv = cms.GetKVStore(e.keys[op.Store])
+			}
 			if op.Op == "set" {
 				kv.Set(unhex(op.Key), unhex(op.Val))
 			} else {
 				kv.Delete(unhex(op.Key))
+			}
+			if cms != nil {
+				cms.Write()
 			}
 		}
 		var rid stypes.CommitID
